@@ -33,3 +33,4 @@ typedef int (*ComponentMain)();
 int comp_volume();
 int comp_wopn();
 int comp_bankmap();
+int comp_pitch();
